@@ -120,6 +120,9 @@ def gen(rng, n):
             if rng.chance(1, 2):
                 d["MAX_UNI"] = 1
             d["HANG_OPS"] = rng.below(32)
+        if rng.chance(1, 12):
+            # the client's socket starts failing: its driver must fail the connection, not just exit
+            d["IOERR_AFTER"] = rng.range(3, 40)
         if d.get("END_MODE", 0) == 1:
             d.pop("NDGRAM", None)
             d.pop("HANG_OPS", None)
@@ -130,7 +133,7 @@ def gen(rng, n):
 def project(case, outs):
     if outs == [[-999]]:
         return outs
-    return [r for r in outs if r and (r[0] in TAGS or r[0] == 16)]
+    return [r for r in outs if r and (r[0] in TAGS or r[0] == 16 or (r[0] == 31 and r[2] == 9))]
 
 
 def nontrivial(case, outs):
